@@ -196,7 +196,8 @@ func (c *xtsDecrypter) CryptBlocks(plaintext, ciphertext []byte) {
 		batchSize := concCipher.Concurrency() * blockSize
 		var tweaks []byte = make([]byte, batchSize)
 
-		for len(ciphertext) >= batchSize {
+		// with a partial last block, the last full block is kept for ciphertext stealing
+		for len(ciphertext) >= batchSize && (len(ciphertext)%blockSize == 0 || len(ciphertext) >= batchSize+blockSize) {
 			doubleTweaks(&c.tweak, tweaks, c.isGB)
 			subtle.XORBytes(plaintext, ciphertext, tweaks)
 			concCipher.DecryptBlocks(plaintext, plaintext)
